@@ -2,96 +2,7 @@
 //! attribute kind (all feature sets), singly and in short sequences, into clean and dirty buffers.
 //! Bounds: the value lists below; sequences of length <= 3 from a rotating window; PASSWORD-ALGORITHMS lists of up to 4
 //! entries with parameter lengths 0..=5. A concrete failing input is printed as `WITNESS: ...`.
-use std::net::{IpAddr, Ipv4Addr, Ipv6Addr, SocketAddr};
-use stun_rs::attributes::discovery::*;
-use stun_rs::attributes::ice::*;
-use stun_rs::attributes::mobility::*;
-use stun_rs::attributes::stun::*;
-use stun_rs::attributes::turn::*;
-use stun_rs::*;
-
-fn values() -> Vec<StunAttribute> {
-    let v4 = IpAddr::V4(Ipv4Addr::new(192, 0, 2, 1));
-    let v6 = IpAddr::V6(Ipv6Addr::new(0x2001, 0xdb8, 0x1234, 0x5678, 0x11, 0x2233, 0x4455, 0x6677));
-    let mut v: Vec<StunAttribute> = Vec::new();
-    for ip in [v4, v6] {
-        for port in [0u16, 1, 0x2112, 0xffff] {
-            v.push(MappedAddress::new(ip, port).into());
-            v.push(AlternateServer::new(ip, port).into());
-            v.push(XorMappedAddress::from(SocketAddr::new(ip, port)).into());
-            v.push(XorPeerAddress::from(SocketAddr::new(ip, port)).into());
-            v.push(XorRelayedAddress::from(SocketAddr::new(ip, port)).into());
-            v.push(OtherAddress::new(ip, port).into());
-            v.push(ResponseOrigin::new(ip, port).into());
-        }
-    }
-    for code in 300u16..700 {
-        if code % 37 == 0 || code % 100 == 0 || code % 100 == 99 || code == 699 {
-            for reason in ["", "x", &"r".repeat(508), &"r".repeat(509), "caf\u{e9} \u{30de}"] {
-                let e = stun_rs::ErrorCode::new(code, reason).unwrap();
-                v.push(stun_rs::attributes::stun::ErrorCode::new(e.clone()).into());
-                v.push(AddressErrorCode::new(AddressFamily::IPv4, e.clone()).into());
-                v.push(AddressErrorCode::new(AddressFamily::IPv6, e).into());
-            }
-        }
-    }
-    for n in [0usize, 1, 2, 3, 4, 5, 127, 508, 509] {
-        let s = "s".repeat(n);
-        v.push(Software::new(s.as_str()).unwrap().into());
-        v.push(Padding::new(s.as_str()).unwrap().into());
-        if n > 0 { v.push(Nonce::new(s.as_str()).unwrap().into()); v.push(Realm::new(s.as_str()).unwrap().into()); }
-        if n > 0 && n < 509 { v.push(UserName::new(s.as_str()).unwrap().into()); }
-        v.push(Data::new(vec![0xA5u8; n]).into());
-        v.push(MobilityTicket::new(vec![0x5Au8; n]).into());
-    }
-    v.push(Nonce::new_nonce_cookie("abc", None).unwrap().into());
-    v.push(UserHash::new("user", "realm").unwrap().into());
-    for x in [0u32, 1, 0x7fff_ffff, 0xffff_ffff] { v.push(Priority::new(x).into()); v.push(LifeTime::new(x).into()); }
-    for x in [0u64, 1, u64::MAX] { v.push(IceControlled::new(x).into()); v.push(IceControlling::new(x).into()); }
-    for x in [0u16, 1, 0x4000, 0xffff] { v.push(ResponsePort::new(x).into()); v.push(ChannelNumber::new(x).into()); }
-    v.push(UseCandidate::default().into());
-    v.push(DontFragment::default().into());
-    v.push(EvenPort::new(true).into());
-    v.push(EvenPort::new(false).into());
-    v.push(RequestedTrasport::default().into());
-    v.push(RequestedAddressFamily::new(AddressFamily::IPv4).into());
-    v.push(RequestedAddressFamily::new(AddressFamily::IPv6).into());
-    v.push(AdditionalAddressFamily::new(AddressFamily::IPv6).into());
-    v.push(ReservationToken::from([1u8, 2, 3, 4, 5, 6, 7, 8]).into());
-    for (t, c) in [(0u8, 0u16), (127, 511), (3, 1), (11, 256)] {
-        v.push(Icmp::new(IcmpType::new(t).unwrap(), IcmpCode::new(c).unwrap(), [9, 8, 7, 6]).into());
-    }
-    v.push(ChangeRequest::new(None).into());
-    v.push(ChangeRequest::new(Some(ChangeRequestFlags::ChangeIp | ChangeRequestFlags::ChangePort)).into());
-    let mut ua = UnknownAttributes::default();
-    v.push(ua.clone().into());
-    for t in [0x0001u16, 0x8022, 0xffff] { ua.add(t); v.push(ua.clone().into()); }
-    for id in [AlgorithmId::MD5, AlgorithmId::SHA256, AlgorithmId::Unassigned(77)] {
-        for plen in 0usize..=5 {
-            let params = vec![0xEEu8; plen];
-            let a = if plen == 0 { Algorithm::from(id) } else { Algorithm::new(id, params.as_slice()) };
-            v.push(PasswordAlgorithm::new(a).into());
-        }
-    }
-    // PASSWORD-ALGORITHMS: all lists of up to 4 entries with parameter lengths from {0, 1, 4, 5}
-    let lens = [0usize, 1, 4, 5];
-    for n in 0..=4usize {
-        let mut idx = vec![0usize; n];
-        loop {
-            let mut pa = PasswordAlgorithms::default();
-            for (k, &i) in idx.iter().enumerate() {
-                let params = vec![k as u8 + 1; lens[i]];
-                let a = if lens[i] == 0 { Algorithm::from(AlgorithmId::SHA256) } else { Algorithm::new(AlgorithmId::Unassigned(100 + k as u16), params.as_slice()) };
-                pa.add(PasswordAlgorithm::new(a));
-            }
-            v.push(pa.into());
-            let mut j = 0;
-            while j < n { idx[j] += 1; if idx[j] < lens.len() { break; } idx[j] = 0; j += 1; }
-            if j == n { break; }
-        }
-    }
-    v
-}
+include!("../values.rs");
 
 fn check(attrs: &[StunAttribute], dirty: u8, fails: &mut usize) {
     let tid = TransactionId::from([0xB7, 0xE7, 0xA7, 0x01, 0xBC, 0x34, 0xD6, 0x86, 0xFA, 0x87, 0xDF, 0xAE]);
